@@ -840,7 +840,7 @@ func (x *Exec) modLocations(pre *State, e ast.Expr) []modLoc {
 				return []modLoc{{comp: "ghost.now", sort: SInt, whole: true}}
 			case "ghostStream":
 				v := x.expr(pre, call.Args[0])
-				return []modLoc{{comp: "ghost.wdata", sort: SArr(SInt, SArr(x.idxSort(), x.byteSort())), ref: v.T}, {comp: "ghost.wlen", sort: SArr(SInt, x.idxSort()), ref: v.T}}
+				return []modLoc{{comp: "ghost.wdata", sort: SArr(SInt, SArr(x.idxSort(), x.byteSort())), ref: v.T}, {comp: "ghost.wlen", sort: SArr(SInt, x.idxSort()), ref: v.T}, {comp: "ghost.wflushed", sort: SArr(SInt, x.idxSort()), ref: v.T}}
 			case "ghostReader":
 				v := x.expr(pre, call.Args[0])
 				return []modLoc{{comp: "ghost.rpos", sort: SArr(SInt, x.idxSort()), ref: v.T}, {comp: "ghost.rfile", sort: SArr(SInt, SInt), ref: v.T}}
@@ -1360,6 +1360,7 @@ func (x *Exec) scanModClause(ms *modSet, mc *Clause) {
 			case "ghostStream":
 				ms.add("ghost.wdata", SArr(SInt, SArr(x.idxSort(), x.byteSort())))
 				ms.add("ghost.wlen", SArr(SInt, x.idxSort()))
+				ms.add("ghost.wflushed", SArr(SInt, x.idxSort()))
 				return
 			case "ghostReader":
 				ms.add("ghost.rpos", SArr(SInt, x.idxSort()))
